@@ -374,13 +374,21 @@ func runImpl(d Desc, fs []marching.Field) (m modeling.Mesh, crash string) {
 		}
 	}()
 	canvas := marching.NewMarchingCanvas(d.Cpu)
-	for _, f := range fs {
+	for i, f := range fs {
 		if d.AddPar2 {
 			canvas.AddFieldParallel2(f)
 		} else if d.AddPar {
 			canvas.AddFieldParallel(f)
 		} else {
 			canvas.AddField(f)
+		}
+		if d.Remarch && i == 0 && len(fs) > 1 {
+			// a march between two AddField calls must not influence the later one
+			if d.Attr != "" {
+				_ = canvas.MarchOnAttribute(d.Attr, d.Cutoff)
+			} else {
+				_ = canvas.March(d.Cutoff)
+			}
 		}
 	}
 	march := func(cutoff float64) modeling.Mesh {
@@ -874,7 +882,7 @@ func checkFieldMarch(d Desc, f marching.Field, dense, g *grid, ps []vector3.Floa
 		if v < d.Cutoff {
 			inside++
 		}
-		if a := math.Abs(v); a > scale && a < 1e100 {
+		if a := math.Abs(v); a > scale {
 			scale = a
 		}
 	}
@@ -977,7 +985,11 @@ func checkFieldMarch(d Desc, f marching.Field, dense, g *grid, ps []vector3.Floa
 		fails = append(fails, fmt.Sprintf("Field.March: %d of %d vertices are not within 1.5e-3 cells of a vertex of the canvas surface", far, len(fps)))
 	}
 	// the field value interpolated to the vertex is the cutoff
-	if len(fidx) > 0 && m.HasFloat1Attribute(marchAttr) {
+	// (not where the field has huge samples -- MultiSegmentLine's "no segment here" is math.MaxFloat64 --: the lerp
+	// (v2 - v1) * t + v1 then loses every digit)
+	if scale > 1e6 {
+		st["field-march:value-check-skipped-huge-samples"]++
+	} else if len(fidx) > 0 && m.HasFloat1Attribute(marchAttr) {
 		a := m.Float1Attribute(marchAttr)
 		off := 0
 		for i := 0; i < a.Len(); i++ {
